@@ -32,6 +32,12 @@ def len(l: List[i64], acc: i64): i64 { l.case[i64] { Nil => acc, Cons(x, xs) => 
 def loop(n: i64, acc: i64): i64 { if n <= 0 { acc } else { let l: List[i64] = build(9, Nil); let p: Pair[List[i64], List[i64]] = Tup(l, l); let r: i64 = p.case[List[i64], List[i64]] { Tup(a, b) => len(a, 0) + len(b, 0) }; loop(n - 1, acc + r) } }
 def main(n: i64): i64 { println_i64(loop(n, 0)); 0 }
 """,
+    "peek": """data List[A] { Nil, Cons(x: A, xs: List[A]) }
+def build(n: i64, acc: List[i64]): List[i64] { if n <= 0 { acc } else { build(n - 1, Cons(n, acc)) } }
+def peek(n: i64, acc: i64, l: List[i64]): i64 { l.case[i64] { Nil => acc, Cons(x, xs) => loop(n, acc) } }
+def loop(n: i64, acc: i64): i64 { if n <= 0 { acc } else { peek(n - 1, acc + 1, build(8, Nil)) } }
+def main(n: i64): i64 { println_i64(loop(n, 0)); 0 }
+""",
     "balanced": """data List[A] { Nil, Cons(x: A, xs: List[A]) }
 def build(n: i64, acc: List[i64]): List[i64] { if n <= 0 { acc } else { build(n - 1, Cons(n, acc)) } }
 def hd(l: List[i64]): i64 { l.case[i64] { Nil => 0, Cons(h, t) => h } }
